@@ -20,7 +20,7 @@ BINARIES = ("mlr-verif", "mlr-race")
 LEVEL = "fault_enumeration"
 
 ORDER_SITES = ["chain.err.post", "chain.eos.forward", "reader.err.post", "reader.eos.send",
-               "writer.err.post", "writer.done", "stream.select.done", "stream.drain", "chain.send", "writer.recv"]
+               "writer.err.post", "writer.done", "stream.select.done", "stream.drain", "chain.send", "writer.recv", "stream.loop"]
 
 
 def _h(*xs):
@@ -105,6 +105,11 @@ def run_scenario(case):
     variants = schedule_variants(rng, case["tier"])
     if sc.get("no_variants"):
         variants = variants[:1]
+    if sc.get("simultaneous"):
+        # error and done-writing ready at the same time: hold the main goroutine before its select (stream.loop)
+        # so that both channels are filled when it looks; select then picks at random -> repeat
+        variants = [(f"hold-main#{k}", ["--records-per-batch", str([1, 2, 500][k % 3])], {"MLR_VERIF_DELAY": "stream.loop=40"}) for k in range(8)]
+        variants += [(f"GOMAXPROCS=1#{k}", ["--records-per-batch", "500"], {"GOMAXPROCS": "1"}) for k in range(4)]
     sigs = set()
     for vname, vflags, venv in variants:
         for mode in ("fault", "control"):
@@ -417,6 +422,15 @@ def scenarios(chk):
                 argv += v
             S.append({"kind": "dsl-failure", "sub": "chain-position", "pos": f"{(up or ['-'])[0]}>{'FAIL'}>{(down or ['-'])[0]}",
                       "argv": argv + ["in.dkvp"], "files": {"in.dkvp": big}})
+
+    # ---- E2. error and end-of-stream simultaneously ready at the main select -------------
+    tiny = gen.dkvp(_recs(3))
+    for name, argv in [("writer-error-last-record", ["--ocsv", "put", '$id == "r3" { $* = mapsum({"zz": 1}, $*) }', "in.dkvp"]),
+                       ("dsl-error-last-record", ["put", '$id == "r3" { $* = 3 }', "in.dkvp"]),
+                       ("dsl-error-end-block", ["put", 'end { int q = "abc" }', "in.dkvp"]),
+                       ("tee-close-error", ["--ocsv", "put", "-q", 'tee > "o.csv", $id == "r3" ? mapsum({"zz": 1}, $*) : $*', "in.dkvp"])]:
+        S.append({"kind": "dsl-failure" if "dsl" in name else "inexpressible-output", "sub": "simultaneous-" + name, "pos": "last",
+                  "argv": argv, "files": {"in.dkvp": tiny}, "simultaneous": True})
 
     # ---- F. output not expressible ---------------------------------------------------
     for r_ in (positions if not q else [2, 500, 501, n]):
